@@ -222,7 +222,7 @@ def _isinstance(e, st, args, kw, n):
 from .engine import Builtin as Builtin_  # noqa: E402
 
 
-@builtin('print', 'warnings.warn', 'numba.set_num_threads', 'gc.collect')
+@builtin('print', 'warnings.warn', 'numba.set_num_threads', 'gc.collect', 'timeit.default_timer')
 def _noop(e, st, args, kw, n):
     return None
 
@@ -533,12 +533,12 @@ def _type(e, st, args, kw, n):
 def _np_array(e, st, args, kw, n):
     """a concrete table (module-level constant such as FACTORIAL_LOOKUP_TABLE)"""
     v = args[0]
-    if not isinstance(v, (list, tuple)) or not all(isinstance(x, int) and not isinstance(x, bool) for x in v):
-        raise Unsupported('numpy.array of non-constant data')
+    if not isinstance(v, (list, tuple)) or not all((isinstance(x, int) and not isinstance(x, bool)) or (isinstance(x, SV) and x.ty == 'int') for x in v):
+        raise Unsupported('numpy.array of non-integer data')
     dt = kw.get('dtype', args[1] if len(args) > 1 else None)
     a = e.new_array(st, 'table', [len(v)], 'int', dt if isinstance(dt, DT) and dt.tag == 'int' else DT('int', 'int64', 64, True), readonly=True)
     t = z3.K(z3.IntSort(), z3.IntVal(0))
     for k, x in enumerate(v):
-        t = z3.Store(t, k, z3.IntVal(x))
+        t = z3.Store(t, k, I(x))
     st.heap[a.base] = t
     return a
